@@ -509,4 +509,7 @@ def _get_Hamiltonian_from_couplings(model, sparse: bool, undo_sort_charge: bool)
         if len(sites_since_last_op) > 0:
             t = kron(t, np.eye(np.prod([dims[n] for n in sites_since_last_op])))
         H = H + s * t
+    if getattr(model, 'explicit_plus_hc', False):
+        # the terms of the model are only "half" of the Hamiltonian
+        H = H + H.conj().T
     return H
